@@ -27,27 +27,27 @@ CORR_DEC = ["corr.dec.class", "corr.dec.value", "corr.const"]
 
 PROPS = {
     "C01": dict(
-        runs=lambda t: [catalogue(t, "enc,dec", values=(16, 150), nbytes=(0, 0), exhaustive=(0, 0))],
+        runs=lambda t: [catalogue(t, "enc,dec", values=(60, 400), nbytes=(0, 0), exhaustive=(0, 0))],
         corr=CORR_ENC + CORR_DEC, oracle=["oracle.C01"]),
     "C02": dict(
-        runs=lambda t: [catalogue(t, "dec", values=(8, 40), nbytes=(120, 1500), exhaustive=(1, 1)),
+        runs=lambda t: [catalogue(t, "dec", values=(16, 60), nbytes=(1200, 6000), exhaustive=(1, 1)),
                         catalogue(t, "dec", values=(0, 2), nbytes=(0, 0), exhaustive=(0, 2), tag="fixed")],
         corr=CORR_DEC + ["corr.enc"], oracle=["oracle.C02"]),
     "C03": dict(
-        runs=lambda t: [catalogue(t, "enc", values=(24, 300), nbytes=(0, 0), exhaustive=(0, 0))],
+        runs=lambda t: [catalogue(t, "enc", values=(80, 600), nbytes=(0, 0), exhaustive=(0, 0))],
         corr=CORR_ENC, oracle=["oracle.C03"]),
     "C04": dict(
-        runs=lambda t: [catalogue(t, "enc,dec", values=(8, 40), nbytes=(120, 1500), exhaustive=(1, 1)),
+        runs=lambda t: [catalogue(t, "enc,dec", values=(16, 60), nbytes=(1200, 6000), exhaustive=(1, 1)),
                         catalogue(t, "dec", values=(0, 2), nbytes=(0, 0), exhaustive=(0, 2), tag="fixed")],
         corr=CORR_DEC + ["corr.enc", "corr.has_ty"], oracle=["oracle.C04"]),
     "C05": dict(
-        runs=lambda t: [catalogue(t, "enc,dec", values=(6, 30), nbytes=(120, 1500), exhaustive=(1, 1)),
-                        special(t, "helpers,builder,listvar", count=(6000, 100000))],
+        runs=lambda t: [catalogue(t, "enc,dec", values=(12, 40), nbytes=(1200, 6000), exhaustive=(1, 1)),
+                        special(t, "helpers,builder,listvar", count=(40000, 400000))],
         corr=["corr.dec.class", "corr.builder", "corr.listvar", "corr.read_offset", "corr.split_union", "corr.const"],
         oracle=["oracle.C05", "abort", "deep-abort"],
         deep=[(200, True), (20000, False)]),
     "C06": dict(
-        runs=lambda t: [catalogue(t, "decalloc", values=(8, 40), nbytes=(80, 800), exhaustive=(0, 0))],
+        runs=lambda t: [catalogue(t, "decalloc", values=(12, 40), nbytes=(200, 1500), exhaustive=(0, 0))],
         corr=["corr.alloc", "corr.dec.class", "corr.const"], oracle=["oracle.C06", "abort"],
         rule="decode calls under a counting global allocator (peak live bytes, largest single request); inputs: valid encodings, "
              "mutations, offset-table grammar and strings whose offset words announce counts in {len/4+1, 2^16..2^30, 2^32-4}; "
@@ -55,7 +55,7 @@ PROPS = {
         assumptions=["heap bytes <= 8 x (largest nested element size) x (units + 1) + 4096: Vec growth policy, BTree node "
                      "overhead and error-string allocations are std behaviour, measured not proved"]),
     "C07": dict(
-        runs=lambda t: [catalogue(t, "meta,enc,dec", values=(12, 100), nbytes=(40, 400), exhaustive=(1, 1))],
+        runs=lambda t: [catalogue(t, "meta,enc,dec", values=(40, 200), nbytes=(100, 800), exhaustive=(1, 1))],
         corr=["corr.meta", "corr.bytes_len", "corr.enc", "corr.has_ty", "corr.dec.class", "corr.const"],
         oracle=["oracle.C07"]),
     "C08": dict(
@@ -68,12 +68,12 @@ PROPS = {
              "#[ssz(with)] fields, transparent structs, unions of 1..128 variants, tag and transparent enums, generic structs) compiled "
              "with the real macro; every observation of the generic harness on them; plus one tiny crate per rejected-definition class"),
     "C09": dict(
-        runs=lambda t: [special(t, "word,helpers,builder,listvar", count=(8000, 200000))],
+        runs=lambda t: [special(t, "word,helpers,builder,listvar", count=(60000, 600000))],
         corr=["corr.encode_length", "corr.read_offset", "corr.builder", "corr.listvar", "corr.const"],
         oracle=["oracle.C09"]),
     "C10": dict(
-        runs=lambda t: [catalogue(t, "app", values=(8, 60), nbytes=(0, 0), exhaustive=(0, 0)),
-                        special(t, "encoder", count=(4000, 100000))],
+        runs=lambda t: [catalogue(t, "app", values=(24, 120), nbytes=(0, 0), exhaustive=(0, 0)),
+                        special(t, "encoder", count=(40000, 400000))],
         corr=["corr.append", "corr.as_bytes", "corr.encoder", "corr.has_ty", "corr.const"],
         oracle=["oracle.C10"]),
     "C15": dict(
@@ -83,7 +83,7 @@ PROPS = {
         corr=["corr.enc", "corr.has_ty", "corr.dec.class", "corr.dec.value", "corr.split_union", "corr.const"],
         oracle=["oracle.C15"]),
     "C16": dict(
-        runs=lambda t: [special(t, "listvar", count=(6000, 150000))],
+        runs=lambda t: [special(t, "listvar", count=(30000, 300000))],
         corr=["corr.listvar", "corr.listvar.calls", "corr.const"], oracle=["oracle.C16"]),
     "C11": dict(
         runs=lambda t: [special(t, "bfhist", count=(16000, 200000))],
